@@ -1140,10 +1140,12 @@ class ManifestRecursiveLoader:
             path, verify_manifests=verify_manifests)
         entry_dict = self.get_deduplicated_file_entry_dict_for_update(
             path, verify_manifests=verify_manifests)
+        # all Manifests applying to path, outermost first, so that
+        # a new MANIFEST entry can always go a level up
         manifest_stack = []
-        for mpath, mrpath, m in (self._iter_manifests_for_path(path)):
+        for mpath, mrpath, m in reversed(
+                self._iter_manifests_for_path(path)):
             manifest_stack.append((mpath, mrpath, m))
-            break
         directory_ids = {}
 
         it = os.walk(os.path.normpath(
